@@ -66,6 +66,13 @@ def run(rep):
     shards, seqs, nops = (16, 1500, 120) if rep.tier == 'thorough' else (8, 120, 80)
     with ThreadPoolExecutor(max_workers=16) as ex:
         results = list(ex.map(lambda i: shard(binary, os.path.join(wd, 's%d' % i), rep.seed * 1000 + i, seqs, nops), range(shards)))
+    import glob
+    for f in sorted(glob.glob(os.path.join(common.VERIF, 'corpus', PROP, '*.ops'))):
+        cw = os.path.join(wd, 'corpus_' + os.path.basename(f)); os.makedirs(cw, exist_ok=True)
+        p = subprocess.run([binary, '-replay', f, '-ops-out', os.path.join(cw, 'ops'), '-impl-out', os.path.join(cw, 'impl')], timeout=600)
+        with open(os.path.join(cw, 'ops')) as i, open(os.path.join(cw, 'model'), 'w') as o:
+            subprocess.run([common.DRIVER, 'opcache'], stdin=i, stdout=o, check=True)
+        results.append(analyse(cw, p.returncode))
     problems = []; hist = collections.Counter(); finals = set(); n = reuse = skipped = stale = 0
     for r in results:
         problems += r['problems']; hist.update(r['hist']); finals |= r['finals']; n += r['seqs']
